@@ -46,6 +46,10 @@ def artifacts(rng, w, thorough):
             arts.append(('mice', f'{d} {rs} {hexs(rbytes(rng, n))}'))
     arts.append(('cbor', '3 u500 b0102 m2 k1 t62 v1 u1 k1 t61 v2 a1 o1'))
     arts.append(('cbor', '1 m0'))
+    # every head width as the LAST thing written (a lost error can only hide in a serializer's final write): 1, 2, 3, 5, 9 byte heads
+    for tok in ('u5', 'u200', 'u70000', 'u4294967296', 'u18446744073709551615', 'i-1099511627776', 'i-300', 'a8589934592', 'a70000', 'o1'):
+        arts.append(('cbor', '1 ' + tok))
+        arts.append(('cbor', '2 u1 ' + tok))
     if thorough:
         for _ in range(20):
             arts.append(('bundle', rand_bundle(rng, rng.choice(['b1', 'b2']), w, nex=rng.randrange(1, 4))))
